@@ -18,6 +18,10 @@ semantic content of the pieces is proved by the contracts of contracts/c10c_draw
         self._generate_draws(self.number_of_draws) is immediately followed by
         `if self.monte_carlo: self.theC.setDraws(self.database.theDraws)`; every setExpressions / evaluation call of __init__
         comes later; _generate_draws and setDraws are called exactly once in biogeme.py.
+  C10:static:calculator.calculate_function_and_derivatives:draws-handed-to-engine-before-calculate
+        (the get_value_c path) `if the_expression.requires_draws(): ... the_cpp.setDraws(database.theDraws)` precedes
+        the_cpp.calculate(...); one setDraws call.  (The order w.r.t. setExpression is NOT demanded: the one-expression engine
+        accepts the draws any time before calculate -- observed with the bounded harness; demanding it flagged a harmless reordering.)
 """
 import ast
 import time
@@ -173,11 +177,29 @@ def check_handover():
     return 'discharged', f'_generate_draws at statement {i}, setDraws at {i + 1}, first setExpressions at {min(evals)}', None
 
 
+def check_calculator():
+    fn = _fn('biogeme.expressions.calculator.calculate_function_and_derivatives')
+    if fn is None:
+        return 'failed', 'calculate_function_and_derivatives not found', None
+    body = fn.body
+    hand = [i for i, s in enumerate(body) if isinstance(s, ast.If) and _u(s.test) == 'the_expression.requires_draws()' and not s.orelse
+            and s.body and _u(s.body[-1]) == 'the_cpp.setDraws(database.theDraws)']
+    if len(hand) != 1:
+        return 'failed', '`if the_expression.requires_draws(): ... the_cpp.setDraws(database.theDraws)` not found exactly once', None
+    later = [i for i, s in enumerate(body) if _mentions(s, ('calculate',))]
+    if not later or min(later) <= hand[0]:
+        return 'failed', f'calculate at statements {later} precedes the hand-over of the draws at {hand[0]}', None
+    if len(_calls(fn, 'setDraws')) != 1:
+        return 'failed', 'setDraws is called more than once', None
+    return 'discharged', f'setDraws(database.theDraws) at statement {hand[0]}, calculate at statement {min(later)}', None
+
+
 CHECKS = [
     ('C10:static:IdManager.prepare:draws-numbered-by-sorted-names', check_numbering),
     ('C10:static:IdManager.prepare:generate_draws-arguments', check_generate_args),
     ('C10:static:BIOGEME.__init__:seed-before-any-draw', check_seed),
     ('C10:static:BIOGEME.__init__:draws-handed-to-engine-before-expressions', check_handover),
+    ('C10:static:calculator.calculate_function_and_derivatives:draws-handed-to-engine-before-calculate', check_calculator),
 ]
 
 
